@@ -186,8 +186,46 @@ def mk_err(tag="anyhow::Error"):
 # ---------------------------------------------------------------- dispatch
 
 
+def model_almost_eq(eng, st, args):
+    """utils::almost_eq(v1, v2, eps) with IEEE semantics of the inner division: when v1 + v2 == 0 the quotient is
+    NaN or +-inf, the first comparison is false and the result is |v2 - v1| < eps"""
+    v1 = eng.deref_all(st, args[0])
+    v2 = eng.deref_all(st, args[1])
+    e = args[2]
+    eps = e.fields[0] if (isinstance(e, Enum) and e.variant == 1) else eng.flt(1e-8)
+    if eng.mode == "float":
+        d = v2 - v1
+        ssum = v1 + v2
+        q = (d / ssum) if ssum != 0 else (float("nan") if d == 0 else float("inf"))
+        return _o(st, (abs(q) < eps) or (abs(d) < eps))
+    v1, v2, eps = to_z3(v1), to_z3(v2), to_z3(eps)
+    d = v2 - v1
+    ad = z3.If(d >= 0, d, -d)
+    ssum = v1 + v2
+    q = d / ssum
+    aq = z3.If(q >= 0, q, -q)
+    return _o(st, z3.If(ssum == 0, ad < eps, z3.Or(aq < eps, ad < eps)))
+
+
 def dispatch(eng, st, body, callee, args):
     T, Tr, meth, gen, rawT = parse_callee(callee)
+    if meth == "almost_eq" and T in (None, "utils") and len(args) == 3:
+        return model_almost_eq(eng, st, args)
+    if Tr in ("TryInto", "TryFrom") and meth in ("try_into", "try_from") and len(args) == 1 and isinstance(args[0], int) and not isinstance(args[0], bool):
+        from engine import INT_RANGES
+        mt = re.search(r"Try(?:Into|From)<(\w+)>", callee)
+        tgt = mt.group(1) if meth == "try_into" else T
+        lo, hi = INT_RANGES.get(tgt, (None, None))
+        if lo is not None:
+            v = args[0]
+            return _o(st, Enum("Result", 0, [v]) if lo <= v <= hi else Enum("Result", 1, [Opaque("TryFromIntError")]))
+    if T in ("PInt", "NInt") and meth == "new":
+        # typenum exponent marker: keep the type-level integer (binary: UInt<UInt<UTerm, B1>, B0> = 2)
+        bits = re.findall(r"B([01])", callee)
+        n = 0
+        for b_ in bits:
+            n = n * 2 + int(b_)
+        return _o(st, Struct("typenum", [n if T == "PInt" else -n]))
     eng.stats["intrinsics"].add(f"{T}|{Tr}|{meth}")
     ng = None
 
@@ -471,7 +509,9 @@ def float_method(eng, st, meth, args, gen):
     if meth == "powi":
         a = eng.deref_all(st, args[0])
         n = args[1]
-        if isinstance(n, Struct):
+        if isinstance(n, Struct) and n.ty == "typenum":
+            n = n.fields[0]
+        elif isinstance(n, Struct):
             # uom: powi(P2::new()) -> typenum marker; exponent is in the generic arg
             m = re.search(r"P(\d)", gen or "")
             if not m:
